@@ -413,17 +413,21 @@ pub fn run_pipeline_case(
                     let diff = match &key {
                         ReadKey::Basic(a) => {
                             let x = state.basic_ref(*a).ok().flatten();
-                            let y = ref_state.basic_ref(*a).ok().flatten();
+                            let y = revm::Database::basic(&mut ref_state, *a).ok().flatten();
                             (x != y).then(|| format!("basic({a}): {x:?} != {y:?}"))
                         }
                         ReadKey::Storage(a, k) => {
+                            // revm's `State::storage_ref` consults the backing database for an account
+                            // whose cache entry holds no account (destroyed / not existing), whereas
+                            // `Database::storage` — the interface the EVM executes against — returns
+                            // zero. The latter is the reference for "readable through the state".
                             let x = state.storage_ref(*a, *k).ok();
-                            let y = ref_state.storage_ref(*a, *k).ok();
+                            let y = revm::Database::storage(&mut ref_state, *a, *k).ok();
                             (x != y).then(|| format!("storage({a}, {k}): {x:?} != {y:?}"))
                         }
                         ReadKey::Code(h) => {
                             let x = state.code_by_hash_ref(*h).ok().map(|c| c.original_bytes());
-                            let y = ref_state.code_by_hash_ref(*h).ok().map(|c| c.original_bytes());
+                            let y = revm::Database::code_by_hash(&mut ref_state, *h).ok().map(|c| c.original_bytes());
                             (x != y).then(|| format!("code({h}) differs"))
                         }
                         ReadKey::BlockHash(_) => None,
